@@ -4,7 +4,7 @@
     specification (Spec/Ps35.v); [write_dataset], [enc_prim_element], [enc_prim],
     [calc_byte_len] are the models of the dicom-rs code. *)
 From DicomV Require Import Base.Endian Model.Vr Model.Header Model.Prim Model.Dataset Model.Writer Spec.Ps35
-  Proofs.HeaderP Proofs.PrimP Proofs.WriterP Proofs.ValidP Proofs.FlatP Proofs.NestedP Proofs.ValidTreeP.
+  Proofs.HeaderP Proofs.PrimP Proofs.WriterP Proofs.ValidP Proofs.FlatP Proofs.NestedP Proofs.ValidTreeP Proofs.CountP.
 Open Scope N_scope.
 
 (** Every byte count returned by [BasicEncode::encode_primitive] equals the
@@ -92,6 +92,28 @@ Theorem C04_nested_sequence_shape : forall f c t v l its,
   obind (st_enc_header c t SQ undef) (fun h => obind (enc_items f c its) (fun body => Ok (h ++ body ++ enc_seq_delim c))).
 Proof. exact enc_tree_seq. Qed.
 
+(** [StatefulEncoder::bytes_written]. The model keeps the counter as the code
+    does: it adds the count RETURNED by [encode_element_header] and
+    [encode_primitive], the constant 8 for item headers and delimiters, and the
+    lengths of the buffers it writes itself ([count_token], [count_prim_element]).
+    Invariant: if the counter equals the number of bytes written before a token
+    list, it equals the number of bytes written after it, for every token list,
+    codec and strategy (by induction over the tokens, so in particular after
+    every single token). *)
+Theorem C04_bytes_written : forall c nochange tks st st',
+  write_tokens c nochange st tks = Ok st' ->
+  write_tokens_counted c nochange st (blen (w_out st)) tks = Ok (st', blen (w_out st')).
+Proof. intros c nc tks. exact (bytes_written_invariant c nc tks). Qed.
+
+Theorem C04_bytes_written_token : forall c nochange st tk st',
+  write_token c nochange st tk = Ok st' ->
+  exists k, count_token c nochange st tk = Ok k /\ blen (w_out st') = blen (w_out st) + k.
+Proof. exact count_token_ok. Qed.
+
+Theorem C04_bytes_written_element : forall c t v p b,
+  enc_prim_element c t v p = Ok b -> count_prim_element c t v p = Ok (blen b).
+Proof. exact count_prim_element_ok. Qed.
+
 (** NESTED data sets (sequences and items of any depth, encapsulated pixel data
     with offset table and fragments), default strategy (every sequence/item
     gets an undefined length and its delimiter), every codec: every stream the
@@ -159,4 +181,7 @@ Print Assumptions C04_valid_flat.
 Print Assumptions C04_spec_valid_flat.
 Print Assumptions C04_write_nested_partial.
 Print Assumptions C04_valid_nested.
+Print Assumptions C04_bytes_written.
+Print Assumptions C04_bytes_written_token.
+Print Assumptions C04_bytes_written_element.
 Print Assumptions C04_nested_sequence_shape.
